@@ -52,11 +52,12 @@ Definition heap_model (prog : list xop) : list (xoutcome * Z) := xrun x_fadd x_f
 Definition heap_show (c : list xop * list (xoutcome * Z)) :=
   let '(prog, expected) := c in
   (first_diff step_eqb (heap_model prog) expected 0%nat, heap_model prog).
-(* [forallb xop_okb prog]: the program text mentions containers only through variables - the hypothesis of the reachable-state
-   theorems (Reachable.reachable_wf), checked on every program that is executed *)
+(* [run_okb]: the program text mentions containers only through variables, and no step stores a container into something reachable
+   from it - the hypotheses of the reachable-state theorems (Reachable.reachable_wf, Acyclic.reachable_acyclic: every reachable
+   state is well-formed and acyclic), checked on every program that is executed *)
 Definition heap_check (c : list xop * list (xoutcome * Z)) : bool :=
   let '(prog, expected) := c in
-  forallb xop_okb prog && list_eqb step_eqb (heap_model prog) expected.
+  run_okb x_fadd x_fmul x_fdiv x_of_int init_state prog && list_eqb step_eqb (heap_model prog) expected.
 
 (* ---------- slice-level programs (Slice.v), run with two growth policies; both must agree with the implementation ---------- *)
 From Anytype Require Import Slice.
